@@ -330,6 +330,83 @@ func MountAfterLookup(out *RunResult) {
 	}
 }
 
+// ConcurrentLookups: three goroutines call With at the same time, each for resources of its own (two groups and an
+// id no handler matches). With reports an error exactly for the unmatched id, and every callback runs in the group
+// its resource belongs to.
+func ConcurrentLookups(out *RunResult) {
+	viol := func(prop, kind, text string) {
+		if len(out.Violations) < 8 {
+			out.Violations = append(out.Violations, Violation{Property: prop, Kind: kind, Text: text, Sig: map[string]string{"kind": kind, "engine": "sched"}})
+		}
+	}
+	s := res.NewService("test")
+	s.SetLogger(nil)
+	s.SetWorkerCount(4)
+	get := res.GetResource(func(r res.GetRequest) { r.NotFound() })
+	s.Handle("alpha.$id", get, res.Group("ga.${id}"))
+	s.Handle("bravo.$a.$b", get, res.Group("gb.${b}"))
+	served := make(chan struct{})
+	s.SetOnServe(func(*res.Service) { close(served) })
+	done := make(chan error, 1)
+	go func() { done <- s.Serve(rconn.New(nil)) }()
+	select {
+	case <-served:
+	case <-time.After(3 * time.Second):
+		return
+	}
+	var vmu sync.Mutex
+	var wg sync.WaitGroup
+	for p := 0; p < 3; p++ {
+		wg.Add(1)
+		go func(p int) {
+			defer wg.Done()
+			for i := 0; i < 100000; i++ {
+				switch p {
+				case 0:
+					rid, want := fmt.Sprintf("test.alpha.%d", i%3), fmt.Sprintf("ga.%d", i%3)
+					if err := s.With(rid, func(r res.Resource) {
+						if g := r.Group(); g != want {
+							vmu.Lock()
+							viol("C01", "wrong-group", fmt.Sprintf("callback for %s ran in worker group %q, its resource belongs to group %q", rid, g, want))
+							vmu.Unlock()
+						}
+					}); err != nil {
+						vmu.Lock()
+						viol("C02", "with-error", fmt.Sprintf("With(%q) returned %v although a handler matches", rid, err))
+						vmu.Unlock()
+					}
+				case 1:
+					rid, want := fmt.Sprintf("test.bravo.x%d.%d", i%2, i%3), fmt.Sprintf("gb.%d", i%3)
+					if err := s.With(rid, func(r res.Resource) {
+						if g := r.Group(); g != want {
+							vmu.Lock()
+							viol("C01", "wrong-group", fmt.Sprintf("callback for %s ran in worker group %q, its resource belongs to group %q", rid, g, want))
+							vmu.Unlock()
+						}
+					}); err != nil {
+						vmu.Lock()
+						viol("C02", "with-error", fmt.Sprintf("With(%q) returned %v although a handler matches", rid, err))
+						vmu.Unlock()
+					}
+				default:
+					rid := fmt.Sprintf("test.delta.%d.%d.%d", i%2, i%3, i%5)
+					if err := s.With(rid, func(res.Resource) {}); err == nil {
+						vmu.Lock()
+						viol("C02", "with-no-error", fmt.Sprintf("With(%q) returned nil although no handler matches", rid))
+						vmu.Unlock()
+					}
+				}
+			}
+		}(p)
+	}
+	wg.Wait()
+	s.Shutdown()
+	select {
+	case <-done:
+	case <-time.After(5 * time.Second):
+	}
+}
+
 // KeptRequest: a handler keeps the Resource value of its request; later, after requests for other resources
 // have been served, a callback is submitted with WithResource on the kept value: it belongs to the group of the
 // resource the value was made for, and starts after the callbacks submitted to that group before it.
@@ -587,6 +664,7 @@ func TwoListenerLoop(seed int64, prog Program, n int) *RunResult {
 	MountAfterLookup(out)
 	NestedMountGroups(out)
 	KeptRequest(out)
+	ConcurrentLookups(out)
 	return out
 }
 
